@@ -173,7 +173,8 @@ def build_unit(unit, width):
                      "@PROB@": prob, "@PROB_BITS@": str(pb),
                      "@WORD_MAX@": hex((1 << wb) - 1), "@STATE_MAX@": hex((1 << sb) - 1),
                      "@POW_STATE_BITS@": hex(1 << sb), "@POW_WORD_BITS@": hex(1 << wb),
-                     "@SBWB@": str(sb - wb), "@TH@": hex(1 << (sb - wb))}.items():
+                     "@SBWB@": str(sb - wb), "@TH@": hex(1 << (sb - wb)),
+                     "@PROB_MAX@": hex((1 << pb) - 1), "@POW_PROB_BITS@": hex(1 << pb)}.items():
             tmpl = tmpl.replace(k, v)
     name = unit["name"] + ("_" + width if width else "")
     path = os.path.join(GEN, name + ".rs")
